@@ -39,6 +39,10 @@ def parent_is_dir(kind, p):
     return kind[dirname(p)] == K_DIR
 
 
+FILE_TEXT = z3.Function('file_text', ObjS, BoolS)
+IS_ASCII = z3.Function('is_ascii', StrS, BoolS)
+
+
 class FsIntrinsics(Intrinsics):
 
     def __init__(self):
@@ -557,6 +561,7 @@ class FsIntrinsics(Intrinsics):
                 s1.assume(cls_of(o) == CLS['FileObj'])
                 s1.assume(z3.Function('file_path', ObjS, StrS)(o) == p)
                 s1.assume(z3.Function('file_writable', ObjS, BoolS)(o))
+                s1.assume(FILE_TEXT(o) == z3.BoolVal('t' in mode))
                 outs.append((s1, Sym(o, OBJ('FileObj'))))
             outs.extend(self.may_fail(eng, st, node, ('OtherOSError', 'IsADirectoryError',
                                                       'FileNotFoundError')))
@@ -564,7 +569,17 @@ class FsIntrinsics(Intrinsics):
         return self._open_read(eng, st, p, node)
 
     def i_file_write(self, eng, st, f, pos, kws, node):
-        # writing may fail at any time (ENOSPC); the file stays where the open left it
+        # writing may fail at any time (ENOSPC); the file stays where the open left it.
+        # Precondition of this model (a text-mode write raises nothing but OSError): the text is
+        # encodable by every codec the stream may have, i.e. pure ASCII -- which json.dumps
+        # guarantees exactly when ensure_ascii is left on.  Recorded strings may hold lone
+        # surrogates (os.fsdecode of non-UTF-8 names), which no strict codec encodes (C16).
+        o = getattr(f, 'self_val', None)
+        if isinstance(o, Sym) and o.ty.kind == 'obj' and o.ty.cls == 'FileObj' and pos \
+                and isinstance(pos[0], Sym) and pos[0].ty.kind == 'str':
+            eng.oblige(st, z3.Implies(FILE_TEXT(o.t), IS_ASCII(pos[0].t)), 'lib-pre',
+                       'written-text-encodable@L%d' % node.lineno, props=['C16'],
+                       line=node.lineno)
         outs = [(st.fork(), None)]
         outs.extend(self.may_fail(eng, st, node))
         return outs
@@ -620,13 +635,24 @@ class FsIntrinsics(Intrinsics):
         return outs
 
     def i_json_dumps(self, eng, st, f, pos, kws, node):
-        return [(st, Sym(fresh('json_text', StrS), STR, fresh=True))]
+        t = fresh('json_text', StrS)
+        ea = kws.get('ensure_ascii', True)
+        if ea is True:
+            st.assume(IS_ASCII(t))       # documented: all non-ASCII characters are escaped
+        return [(st, Sym(t, STR, fresh=True))]
 
     def i_copy_deepcopy(self, eng, st, f, pos, kws, node):
         v = pos[0]
         if isinstance(v, Sym) and v.ty.kind == 'pyv':
             return [(st, Sym(v.t, PYV, fresh=True))]
         raise Unsupported('deepcopy of %r' % (v,))
+
+    def i_copy_copy(self, eng, st, f, pos, kws, node):
+        v = pos[0]
+        if isinstance(v, Sym) and v.ty.kind == 'pyv':
+            # shallow copy: inner containers are shared, so the value is not deep-fresh
+            return [(st, Sym(v.t, PYV, fresh=False))]
+        raise Unsupported('copy.copy of %r' % (v,))
 
     def i_threading_Lock(self, eng, st, f, pos, kws, node):
         return [(st, self.new_object(eng, st, 'Lock'))]
